@@ -431,26 +431,29 @@ deriving Repr, DecidableEq, Inhabited
 def mspExact (v : Bin) : Int :=
   if v.m = 0 then 0 else let (n, d) := ratOfBin v.m v.e; flog10Rat n d
 
+/-- `digit_buf` of cif_value_init_numb: `to_digits(val, scale)`, an empty result replaced by `"0"`
+    ("the value rounds to zero at the specified scale, but it nevertheless has one (zero) digit") -/
+def initDigits (val : Bin) (scale : Int) : List Nat :=
+  if toDigitsBig val.m val.e scale = [] then [0] else toDigitsBig val.m val.e scale
+
+/-- `su_buf` of cif_value_init_numb: absent for `su = 0` and when no significant digits of uncertainty remain -/
+def initSu (su : Bin) (scale : Int) : Option (List Nat) :=
+  if su.m ≠ 0 then (if toDigitsBig su.m su.e scale = [] then none else some (toDigitsBig su.m su.e scale)) else none
+
+/-- choice of notation and formatting; `none` = the text would be longer than a line -/
+def initText (neg : Bool) (digits : List Nat) (suD : Option (List Nat)) (scale maxLead msp : Int) : Option Str :=
+  if scale ≥ 0 ∧ -(msp + 1) ≤ maxLead then formatDecimal neg digits suD scale.toNat
+  else formatSci neg digits suD scale
+
 /-- `cif_value_init_numb(n, val, su, scale, max_leading_zeroes)`: `.error code` or the new number value -/
 def initNumb (val su : Bin) (scale : Int) (maxLead : Int) (msp : Int) : Except Code V :=
   if (su.neg ∧ su.m ≠ 0) ∨ -scale < LEAST_DBL_10_DIGIT ∨ -scale > DBL_MAX_10_EXP ∨ maxLead < 0 then
     .error CIF_ARGUMENT_ERROR
   else
-    let d0 := toDigitsBig val.m val.e scale
-    -- the value rounds to zero at the specified scale, but it nevertheless has one (zero) digit
-    let digits := if d0 = [] then [0] else d0
-    let suD : Option (List Nat) :=
-      if su.m ≠ 0 then
-        let sd := toDigitsBig su.m su.e scale
-        if sd = [] then none else some sd
-      else none
     let neg : Bool := val.neg && decide (val.m ≠ 0)            -- (val < 0)
-    let text : Option Str :=
-      if scale ≥ 0 ∧ -(msp + 1) ≤ maxLead then formatDecimal neg digits suD scale.toNat
-      else formatSci neg digits suD scale
-    match text with
+    match initText neg (initDigits val scale) (initSu su scale) scale maxLead msp with
     | none => .error CIF_ARGUMENT_ERROR
-    | some t => .ok (V.numb false t neg digits suD scale)
+    | some t => .ok (V.numb false t neg (initDigits val scale) (initSu su scale) scale)
 
 /-- number of trailing zero bits of a positive `m` (fuel = bit length) -/
 def trailingZeros : Nat → Nat → Nat
